@@ -9,6 +9,7 @@ import (
 	"time"
 
 	"github.com/vx-labs/mqtt-protocol/packet"
+	"github.com/vx-labs/wasp/v4/wasp/api"
 
 	"wv/fw"
 	"wv/kit"
@@ -27,8 +28,8 @@ type c14Sub struct {
 	cl      *kit.Client
 }
 
-var c14Filters = []string{"d/a", "d/a/#", "d/+", "d/#", "d/a/b", "d/+/b", "d/b"}
-var c14Topics = []string{"d/a", "d/a/b", "d/b", "d/c/b", "d/a/b/c", "e/x"}
+var c14Filters = []string{"d/a", "d/a/#", "d/+", "d/#", "d/a/b", "d/+/b", "d/b", "d/a/+", "d/a/"}
+var c14Topics = []string{"d/a", "d/a/b", "d/b", "d/c/b", "d/a/b/c", "e/x", "d/a/"}
 
 // waitCount polls a counter function until it reaches want (count-based, generous bound).
 func waitCount(f func() int, want int, d time.Duration) bool {
@@ -105,6 +106,26 @@ func c14Scenario(c *fw.Ctx, s int) {
 		defer pc.Close()
 		pubs = append(pubs, pc)
 		pubNode = append(pubNode, pn)
+	}
+	// stale gossip: subscriptions attributed to a node whose sessions do not exist there (any more); they are
+	// recipients of nothing and must not stand in the way of the real ones
+	type ghostSub struct {
+		node   int
+		filter string
+	}
+	ghosts := []ghostSub{}
+	for ni := range nodes {
+		for k, f := range []string{"d/#", "d/a", "d/+", "d/a/b", "#"} {
+			if (s+k+ni)%2 == 0 {
+				continue
+			}
+			ghosts = append(ghosts, ghostSub{ni, f})
+			stale := kit.EncodeEvent(&api.StateBroadcastEvent{Subscriptions: []*api.Subscription{{
+				SessionID: fmt.Sprintf("ghost-%d-%d", ni, k), Pattern: []byte("_default/" + f), Peer: uint64(ni + 1), QoS: int32(k % 3), LastAdded: time.Now().UnixNano()}}})
+			for _, every := range nodes {
+				every.State.Distributor().NotifyMsg(stale)
+			}
+		}
 	}
 	cl.Quiesce() // gossip barrier: every node knows every subscription
 	if s%2 == 1 {
@@ -196,6 +217,11 @@ func c14Scenario(c *fw.Ctx, s int) {
 						if model.Match(f, topic) {
 							m.dests[su.node] = true
 						}
+					}
+				}
+				for _, g := range ghosts { // a node with a stale matching subscription is a destination too
+					if model.Match(g.filter, topic) {
+						m.dests[g.node] = true
 					}
 				}
 				m.expectAck = true
@@ -309,6 +335,11 @@ func c14Scenario(c *fw.Ctx, s int) {
 					if model.Match(f, topic) {
 						m.dests[su.node] = true
 					}
+				}
+			}
+			for _, g := range ghosts {
+				if model.Match(g.filter, topic) {
+					m.dests[g.node] = true
 				}
 			}
 			remote := []int{}
